@@ -761,3 +761,127 @@ Proof.
       apply bind_ok in Hvw. destruct Hvw as [x [_ Hx]]. discriminate.
     + destruct chain; [left; reflexivity|right; exact Hsrc].
 Qed.
+
+(* ------------------------------------------------------------------ search order *)
+(* the objects of a scope that a lookup with this stop_id looks at: everything before the first
+   object whose id is present and >= stop_id *)
+Fixpoint visible (stop:nat) (l:list obj) : list obj :=
+  match l with [] => [] | o :: r => if stops stop o then [] else o :: visible stop r end.
+
+Lemma scan_visible : forall stop path l,
+  stop <> 0 -> scan stop path l = Ok (filter (cand path) (visible stop l)).
+Proof.
+  intros stop path l Hs. induction l as [|o r IH]; [reflexivity|].
+  cbn [scan visible]. apply Nat.eqb_neq in Hs. rewrite Hs, andb_false_r.
+  destruct (stops stop o); [reflexivity|]. rewrite IH. cbn [bind filter].
+  destruct (cand path o); reflexivity.
+Qed.
+
+Lemma try_cands_app : forall rec chain path la lb,
+  try_cands rec chain path (la ++ lb) =
+  match try_cands rec chain path la with
+  | Ok None => try_cands rec chain path lb
+  | r => r
+  end.
+Proof.
+  intros rec chain path la lb. induction la as [|o r IH]; [reflexivity|].
+  cbn [app try_cands]. destruct (eqs (onm o) path); [reflexivity|].
+  destruct (rec (okids o :: chain) (drop (length (onm o) + 1) path)) as [[y|]| |]; cbn [bind]; auto.
+Qed.
+
+Lemma lex_here_visible : forall rec stop cur ups path,
+  stop <> 0 ->
+  lex_here rec stop (cur :: ups) path =
+  try_cands rec (cur :: ups) path (rev (filter (cand path) (visible stop cur))).
+Proof. intros. unfold lex_here. rewrite scan_visible by assumption. reflexivity. Qed.
+
+(* later objects of a scope take precedence over earlier ones *)
+Lemma lex_here_later_first : forall rec stop cur ups path l1 l2,
+  stop <> 0 -> visible stop cur = l1 ++ l2 ->
+  lex_here rec stop (cur :: ups) path =
+  match try_cands rec (cur :: ups) path (rev (filter (cand path) l2)) with
+  | Ok None => try_cands rec (cur :: ups) path (rev (filter (cand path) l1))
+  | r => r
+  end.
+Proof.
+  intros rec stop cur ups path l1 l2 Hs Hv. rewrite lex_here_visible by assumption.
+  rewrite Hv, filter_app, rev_app_distr. apply try_cands_app.
+Qed.
+
+Lemma cand_name : forall path o, eqs (onm o) path = true -> cand path o = true.
+Proof. intros path [h ws a|h ks a] H; unfold onm in H; cbn in *; rewrite H; reflexivity. Qed.
+
+(* the last visible object whose name is the path wins, whatever precedes it *)
+Lemma lex_here_last_wins : forall rec stop cur ups path l1 d l2,
+  stop <> 0 -> visible stop cur = l1 ++ d :: l2 ->
+  onm d = path -> (forall o, In o l2 -> cand path o = false) ->
+  lex_here rec stop (cur :: ups) path = Ok (Some (d, cur :: ups)).
+Proof.
+  intros rec stop cur ups path l1 d l2 Hs Hv Hn Hl2.
+  rewrite (lex_here_later_first rec stop cur ups path l1 (d :: l2) Hs Hv).
+  cbn [filter]. assert (He : eqs (onm d) path = true) by (rewrite Hn; apply eqs_refl).
+  rewrite (cand_name _ _ He).
+  assert (Hf : filter (cand path) l2 = []).
+  { clear Hv. induction l2 as [|o r IH]; [reflexivity|]. cbn. rewrite (Hl2 o (or_introl eq_refl)).
+    apply IH. intros; apply Hl2; right; assumption. }
+  rewrite Hf. cbn [rev app try_cands]. rewrite He. reflexivity.
+Qed.
+
+(* an object at or after the stopping object is never looked at *)
+Lemma visible_app_stop : forall stop l1 o l2,
+  stops stop o = true -> visible stop (l1 ++ o :: l2) = visible stop l1.
+Proof.
+  intros stop l1 o l2 Hs. induction l1 as [|k r IH]; cbn [app visible]; [rewrite Hs; reflexivity|].
+  destruct (stops stop k); [reflexivity|]. rewrite IH. reflexivity.
+Qed.
+
+(* innermost scope first, then outwards; root-anchored paths look at the root only;
+   a dotted path descends into the candidate scope without looking outwards from there *)
+Lemma lexical_get_outward : forall f stop cur ups path,
+  strip_dot path = None ->
+  lexical_get (S f) stop (cur :: ups) path true =
+  match lex_here (fun c p => lexical_get f stop c p false) stop (cur :: ups) path with
+  | Ok None => lexical_get (S f) stop ups path true
+  | r => r
+  end.
+Proof.
+  intros f stop cur ups path Hs. cbn [lexical_get]. rewrite Hs. cbn [lex_up].
+  destruct (lex_here _ stop (cur :: ups) path) as [[y|]| |]; reflexivity.
+Qed.
+
+Lemma lexical_get_outermost : forall f stop path, lexical_get (S f) stop [] path true = Ok None
+  \/ exists p, strip_dot path = Some p.
+Proof.
+  intros f stop path. destruct (strip_dot path) eqn:E; [right; eauto|left].
+  cbn [lexical_get]. rewrite E. reflexivity.
+Qed.
+
+Lemma lexical_get_anchored : forall f stop chain path p su,
+  strip_dot path = Some p ->
+  lexical_get (S f) stop chain path su =
+  lex_here (fun c p => lexical_get f stop c p false) stop (root_of chain) p.
+Proof. intros f stop chain path p su Hs. cbn [lexical_get]. rewrite Hs. reflexivity. Qed.
+
+Lemma lexical_get_no_search_up : forall f stop chain path,
+  strip_dot path = None ->
+  lexical_get (S f) stop chain path false =
+  lex_here (fun c p => lexical_get f stop c p false) stop chain path.
+Proof. intros f stop chain path Hs. cbn [lexical_get]. rewrite Hs. reflexivity. Qed.
+
+Lemma root_of_last : forall chain r, root_of (chain ++ [r]) = [r].
+Proof.
+  induction chain as [|c [|c2 rest] IH]; intros r; [reflexivity|reflexivity|].
+  cbn [app root_of] in *. apply IH.
+Qed.
+
+Lemma try_cands_descend : forall rec chain path o rest,
+  eqs (onm o) path = false ->
+  try_cands rec chain path (o :: rest) =
+  match rec (okids o :: chain) (drop (length (onm o) + 1) path) with
+  | Ok None => try_cands rec chain path rest
+  | r => r
+  end.
+Proof.
+  intros rec chain path o rest He. cbn [try_cands]. rewrite He.
+  destruct (rec (okids o :: chain) (drop (length (onm o) + 1) path)) as [[y|]| |]; reflexivity.
+Qed.
